@@ -125,6 +125,39 @@ def h_pair(txt, f, period, unit, mode, N):
     return body
 
 
+def h_reconf(txt, f1, p1, f2, p2, mode, N):
+    """ONE object whose sampling period is set again after it has been used: the results afterwards are those of the configuration in
+    force (f2: the sample-level formula under p2, None = a bound is no longer a multiple of the period and must be rejected)"""
+    f1 = T(f1)
+    vs = sorted(variables(f1))
+
+    def body(env):
+        import rtamt
+        A = env.A
+        res = []
+        w0 = dt.trace(env, vs, N, prefix='first_')
+        w = dt.trace(env, vs, N)
+        if mode == 'offline':
+            s = dt.make_spec('offline~', 'out = ' + txt, vs, period=tuple(p1) + (0.1,))
+            res += dt.eq_list(A, 'before', [p[1] for p in dt.offline(s, w0, N)], rho(A, f1, w0, N))
+            s.set_sampling_period(*(tuple(p2) + (0.1,)))
+            run = lambda: [p[1] for p in dt.offline(s, w, N)]
+        else:
+            # online: configured, pastify() called (it inspects the bounds), configured again before the first update()
+            s = dt.make_spec('online~', 'out = ' + txt, vs, period=tuple(p1) + (0.1,), pastify=True)
+            s.set_sampling_period(*(tuple(p2) + (0.1,)))
+            run = lambda: dt.online(s, w, N)
+        try:
+            got = run()
+        except rtamt.RTAMTException:
+            return res + [('rejected-after-reconfiguration', A.bool(f2 is None))]
+        env.observe('out', got)
+        if f2 is None:
+            return res + [('rejected-after-reconfiguration', A.false)]
+        return res + dt.eq_list(A, 'after', got, rho(A, T(f2), w, N))
+    return body
+
+
 def h_nonmultiple(op, itext, unit, period, mode):
     vs = ['x', 'y'] if op in ('since_t', 'until_t', 'unless_t') else ['x']
 
@@ -240,6 +273,20 @@ def obligations(tier, rng):
                     n = 2 if op in ('since_t', 'until_t') else 3
                     out.append(ob('C08', 'dense', 'ct/%s/%s[%d,%d]/%s %s' % (mode, op, a, b, name, itext), op=op, a=a, b=b, itext=itext,
                                   unit=unit, scale=scale, mode=mode, n=n, max_paths=20000, wall=600))
+    # one object, configured twice (same number in another unit; another number; a configuration under which a bound is off the grid)
+    for txt, mk in [('once[0:2000us](x)', lambda a, b: ('once_t', X, a, b)), ('always[1000us:2ms](x)', lambda a, b: ('always_t', X, a, b)),
+                    ('(x) since[0:2ms] (y)', lambda a, b: ('since_t', X, Y, a, b)), ('historically[2ms:4000us](x)', lambda a, b: ('historically_t', X, a, b))]:
+        lo = 2 if txt.startswith('hist') else (1 if txt.startswith('always') else 0)
+        hi = 4 if txt.startswith('hist') else 2
+        cases = [((1, 'ms'), (lo, hi), (1, 'us'), (lo * 1000, hi * 1000)), ((1, 'us'), (lo * 1000, hi * 1000), (1, 'ms'), (lo, hi)),
+                 ((1, 'ms'), (lo, hi), (500, 'us'), (lo * 2, hi * 2)), ((500, 'us'), (lo * 2, hi * 2), (2, 'ms'), (lo // 2, hi // 2) if lo % 2 == 0 else None),
+                 ((1, 'ms'), (lo, hi), (3, 'ms'), None)]
+        for p1, b1, p2, b2 in cases:
+            for mode in ('offline', 'online'):
+                if mode == 'online' and txt.startswith('always'):
+                    continue
+                out.append(ob('C08', 'reconf', 'reconf/%s/%s/P=%d%s then %d%s' % (mode, txt, p1[0], p1[1], p2[0], p2[1]), txt=txt, f1=mk(*b1), p1=list(p1),
+                              f2=mk(*b2) if b2 else None, p2=list(p2), mode=mode, N=4))
     seen = set()
     res_ = [o for o in out if not (o['oid'] in seen or seen.add(o['oid']))]
     from .. import core as _core
